@@ -567,6 +567,19 @@ class OpWorld(World):
                 self.struct["impl"].append(("sub", o.attrs["term"]))
                 if self.harness is not None and getattr(self.harness, "in_handler", False):
                     self.snaps["impl"].append(self.harness.capture_impl())
+                si = getattr(self.harness, "sync_inner", None) if self.harness is not None else None
+                if si is not None and hs[si] is not None and not getattr(self.harness, "sync_inner_fired", False):
+                    # scenario: this inner source (a member of a family) notifies from INSIDE its subscribe call, before the
+                    # operator got the handle; what that notification subscribes / schedules is recorded
+                    self.harness.sync_inner_fired = True
+                    n0, t0 = len(self.subs), len(self.timers)
+                    a = [it.ctx.fresh("x_sync", "val")] if si == 0 else ([fresh_exc(it.ctx, "err_sync")] if si == 1 else [])
+                    try:
+                        it.call(hs[si], a, {})
+                    except PyExc:
+                        self.harness.sync_inner_raised = True
+                    self.harness.sync_inner_made = [x[3] for x in self.subs[n0:]] + [t["handle"] for t in self.timers[t0:]]
+                    self.harness.sync_inner_disposed_before = len(self.disposed)
             elif self.harness is not None and getattr(self.harness, "phase", "") == "subscribe":
                 # the source may emit synchronously from inside this call: the operator's cells must be ready
                 env = self.harness.pick_cells_env(hs)
@@ -2456,6 +2469,61 @@ class OpHarness:
         finally:
             self.sync_fire = None
 
+    def run_family_sync(self, ctx, fam, slot):
+        """a member of a family that notifies from inside its subscribe call (an already resolved AsyncSubject, a BehaviorSubject
+        / ReplaySubject, of() / empty() on an inline scheduler): the notification runs the member's handler NESTED in the step
+        that is subscribing it.  Whatever the nested handler subscribed or scheduled (the next member, the next queued inner,
+        the fallback) must still be live when the outer step returns - the rest of that step (typically: storing the handle of
+        the member that has already fired) must not release it."""
+        c = self.c
+        F = c.families[fam]
+        nm = ("on_next", "on_error", "on_completed")[slot]
+        uid = f"{c.uid}/{fam}.{nm}-from-inside-its-subscribe"
+        self.sync_inner, self.sync_inner_fired, self.sync_inner_made, self.sync_inner_raised = slot, False, [], False
+        self.sync_inner_disposed_before = 0
+        try:
+            if F.get("created_in") == "subscribe":
+                try:
+                    r = self.run_subscribe(ctx)
+                except PyExc:
+                    r = None
+                ctx.results.clear()
+                w = self.w
+            else:
+                self.sync_inner = None
+                r = self.run_subscribe(ctx)
+                ctx.results.clear()
+                if r is None:
+                    raise PathEnd()
+                it, w, cells_env, s, handlers = r
+                outer = handlers.get(F.get("source", c.sources[0]))
+                if outer is None or outer[0] is None:
+                    raise PathEnd()
+                self.step_uid = uid
+                self.havoc(it, ctx, cells_env, s)
+                done = self.spec_done(it, ctx, s)
+                if done if isinstance(done, bool) else ctx.branch(done, "already-terminated (creation)"):
+                    raise PathEnd()
+                inv = self.check_inv(it, ctx, uid, cells_env, s)
+                ctx.assume(inv if not isinstance(inv, bool) else z3.BoolVal(inv))
+                self.begin_step(w, cells_env, s)
+                self.sync_inner = slot
+                try:
+                    it.call(outer[0], [self.make_element(it, ctx)], {})
+                except PyExc:
+                    pass
+                self.in_handler = False
+                ctx.results.clear()
+            if not self.sync_inner_fired or not self.sync_inner_made:
+                raise PathEnd()
+            later = w.disposed[self.sync_inner_disposed_before:]
+            lost = [d for d in self.sync_inner_made if any(x is d for x in later)]
+            self.record(ctx, uid + "/what-the-nested-notification-subscribed-is-still-live-when-the-step-returns", not lost, kind="frame",
+                        detail=f"released by the rest of the step that was subscribing the member: {[d.name for d in lost]} "
+                               f"(e.g. the handle of the member that has already fired is stored over its successor's)")
+        finally:
+            self.sync_inner = None
+
     # -- driver -------------------------------------------------------------------------
     def run(self):
         c = self.c
@@ -2483,6 +2551,10 @@ class OpHarness:
             for fam in c.families:
                 for slot in (0, 1, 2):
                     paths = explore(lambda ctx, _f=fam, _k=slot: self.run_family_handler(ctx, _f, _k))
+                    self._collect(paths)
+            for fam in c.families:
+                for slot in (0, 2):
+                    paths = explore(lambda ctx, _f=fam, _k=slot: self.run_family_sync(ctx, _f, _k))
                     self._collect(paths)
             if len(c.sources) > 1 or getattr(c, "late_subscribe", False):
                 for srcname in c.sources:
